@@ -4,20 +4,21 @@ HOOK_COMMITS = ["f5b1d5244facd014c279423c479633cc3b50fced", "3268006", "35263043
 
 PROPS = {
     "C01": {
+        "extra_props": ["C01gen"],
         "level": "translation_validation",
         "rule": "generated Horn-fragment programs (as C02; 1/4 with #[coinductive] traits, SLG only for those) x 6 goals with 1-2 unknowns (4 shaped after an "
                 "impl header with parameters/subterms replaced by unknowns, 2 free-form, conjunctions and equalities); both solvers on fresh instances; "
                 "each answer judged by Contract.judgeAnswer with candidate solutions enumerated over the program's constructors (depth 2 for one unknown, "
                 "depth 1 for two, capped); known-finding programs from corpus/C01 first; non-trivial = every judged answer",
         "technique": "certified checker: Lean 4 acceptance predicate over the proved-sound Stage-A evaluator (every rejection carries a kernel-certified witness); exact model + theorems for the aggregation layer (C17)",
-        "claim": "Unique: certified to hold for the generic instantiation of its substitution, and no enumerated certified solution lies outside it; No-solution and "
+        "claim": "Unique: certified to hold for the generic instantiation of its substitution and THEREFORE for every instantiation (Props/C01gen.lean, accepted_unique_holds_every_instance: the generalisation lemma for opaque constants, both fixed-point strata, positive goals whose program/goal/answer contain no !g symbol - side conditions evaluated by the driver per answer, stage unique:A+bounded+every-instance; necessity of positivity: generalisation_fails_with_negation), and no enumerated certified solution lies outside it; No-solution and "
                  "definite guidance: no enumerated certified solution contradicts them. Every rejection is a proved violation of the property's sentence "
                  "(theorems rejected_none_has_solution, rejected_unique_does_not_hold, rejected_excludes_solution). Completeness half is refutation-complete "
                  "only up to the enumeration bound (Stage C / lifting lemma not proved).",
         "note": "Trusted: Lean kernel, horn.rs translation (program, peeled query, answers), Stage-A theorems. Not verified: the solvers' search (every produced "
                 "answer is checked instead). Known findings F1 (SLG nonlinear definite guidance) and F11 (SLG coinductive variant cycle) are open and reported as "
-                "KNOWN-FINDING. 'holds for every instantiation' is certified on the generic instance with opaque constants; the generalisation lemma "
-                "(derivations are closed under replacing opaque constants) is not yet a theorem.",
+                "KNOWN-FINDING. 'holds for every instantiation' is certified on the generic instance with opaque constants and lifted to every instance by the generalisation lemma "
+                "(Props/C01gen.lean: derivations of both strata are closed under replacing opaque constants that the program does not mention).",
         "correspondence": "real Solver::solve (SLG, recursive) vs Contract.judgeAnswer on horn(program, peeled goal)",
         "explanation": "translation validation of solver answers by a certified checker",
     },
@@ -121,7 +122,7 @@ PROPS = {
         "explanation": "cross-validation of the two solvers by a certified comparator",
     },
     "C05": {
-        "extra_props": ["C05fp", "C05mixed"],
+        "extra_props": ["C05fp", "C05mixed", "C05strat"],
         "level": "translation_validation",
         "rule": "150 generated programs: 1-2 #[auto] traits (optionally a #[coinductive] trait with cyclic impls), 3-6 structs with 0-2 fields forming rings and chains "
                 "(recursive and mutually recursive), explicit positive (plain and conditional) and negative auto-trait impls; 7 closed goals each (atoms, conjunctions, not); "
@@ -156,6 +157,7 @@ PROPS = {
         "explanation": "translation validation of solver answers by a certified checker",
     },
     "C07": {
+        "extra_props": ["C01gen"],
         "level": "translation_validation",
         "rule": "150 generated coherent programs (one impl per trait and self-type constructor): 1-2 traits with an associated type (a quarter with a trait parameter), impls on "
                 "nullary and unary structs whose values mention impl parameters, structs and scalars, some with where-clauses; 8 goals each: exists<U>{Normalize(<X as Tr>::A -> U)}, "
@@ -686,7 +688,7 @@ PROPS = {
         'explanation': "bounding mechanisms proved on an exact model; the real engines' termination observed through deterministic work counters in child processes",
     },
     'C10': {
-        'extra_props': ['C10fp', 'C05mixed'],
+        'extra_props': ['C10fp', 'C05mixed', 'C05strat'],
         'level': 'proof',
         'rule': "MODEL lines: abstract instances are READ OFF THE REAL CODE (for every goal reachable from the root goals the harness asks chalk for the clauses solve_from_clauses would try - custom clauses, program_clauses_that_could_match, program_clauses_for_env, could_match filter - instantiates each against the goal with the real InferenceTable as Fulfill::new_with_clause does and canonicalizes the conditions as Fulfill::prove does; programs outside the abstraction of FixedPoint.lean are refused and counted) for three families: ground dependency graphs of <= 12 structs over an inductive and a #[coinductive] trait (chains with/without base case, diamonds, one cycle with/without base case entered through a tail, nested SCCs, two SCCs sharing nodes, random graphs; all-inductive / all-coinductive / mixed kinds; several impls per type), goals with unknowns (the F10 family: blanket impls `impl<X> Qi for X where X: Qj` + per trait no or >= 2 facts), and ProgGen programs with closed atomic goals whose goal closure is finite (<= 48 goals). One request line = one SCRIPT of calls on ONE real RecursiveSolver (cache on or off, overflow depth): per call the outcome kind (unique/none/ambig/panic:<site>), the hook's work counter and the hook-dumped cache must equal the model's, exactly. C10 scripts: histories of 1-7 plain solves of root goals (repetitions included) with the cache on and the same history with the cache off. ORACLE (real code, SLG, recursive, recursive without cache; no model line): corpus/C10 first (F10, F13, F14, F17 inputs), then generated subjects (as C09 without growing impls), goal pool of <= 5: the fresh-solver answer of every goal, then ALL permutations of <= 4 goals (5 in the thorough tier), every goal twice, and 12 (40) random sequences of length 2-6 with repetitions, each posed to ONE solver instance; every answer must equal (==) the fresh solver's; recursive cache-on vs cache-off fresh answers must be equal. One failing history per solver and program is reported. Non-trivial = instance with a cycle or an outcome other than unique",
         'technique': "Lean 4 theorems about an executable model of the recursive solver's fixed-point/caching framework (invariant over all call histories: cache soundness w.r.t. the instance's equations) + exact differential correspondence (outcome, work counter, cache contents) + exhaustive small histories on both real solvers",
